@@ -2,6 +2,7 @@ package c04
 
 import (
 	"fmt"
+	"iter"
 	"reflect"
 	"sort"
 	"strconv"
@@ -14,9 +15,64 @@ import (
 )
 
 type hImpl struct {
-	h   [2]*heapz.Heap[int]
-	el  []*heapz.Element[int] // id (allocation order) -> element
-	ids map[*heapz.Element[int]]int
+	h    [2]*heapz.Heap[int]
+	el   []*heapz.Element[int] // id (allocation order) -> element
+	ids  map[*heapz.Element[int]]int
+	seqs []iter.Seq[int] // slot -> the Seq value `h.PopAll()` returned when `seq` was executed
+}
+
+// heapCaps is the set the generator draws the capacities given to New from: pushes cross them
+// (append reallocates the array) while the harness holds handles.
+var heapCaps = []int{0, 1, 2, 3, 7, 8, 9, 64, 100}
+
+// parseHeapHdr: `<cmp>` | `<cmp> <capA> <capB>` | `<cmp> <capA> <capB> zv` (tokens after `@ C04 heap`).
+func parseHeapHdr(hdr []string) (cmp func(a, b int) bool, caps [2]int, zv, ok bool) {
+	if len(hdr) != 1 && len(hdr) != 3 && len(hdr) != 4 {
+		return
+	}
+	cmp = cmpOf(hdr[0])
+	if cmp == nil {
+		return
+	}
+	if len(hdr) >= 3 {
+		for k := 0; k < 2; k++ {
+			c, ok1 := atoi(hdr[1+k])
+			if !ok1 || c < 0 || c > 1<<20 || strings.HasPrefix(hdr[1+k], "-") {
+				return
+			}
+			caps[k] = c
+		}
+	}
+	if len(hdr) == 4 {
+		if hdr[3] != "zv" {
+			return
+		}
+		zv = true
+	}
+	ok = true
+	return
+}
+
+// slotOf parses a Seq slot number (0,1,2… in creation order).
+func slotOf(s string, n int) (int, bool) {
+	v, ok := atoi(s)
+	if !ok || v < 0 || v >= n || strings.HasPrefix(s, "-") {
+		return 0, false
+	}
+	return v, true
+}
+
+// takeSeq is the consumer `for x := range q { got = append(got, x); if len(got) == k { break } }`
+// (k <= 0: no break, the loop runs until the Seq ends).
+func takeSeq(q iter.Seq[int], k int) []int {
+	xs := []int{}
+	for x := range q {
+		xs = append(xs, x)
+		if len(xs) == k {
+			break
+		}
+	}
+	return xs
 }
 
 // heapValues reads the private `values` field (read-only: used to learn the handles of the
@@ -83,16 +139,22 @@ func implHeap(c core.Case) []string {
 	var cmp func(a, b int) bool
 	return core.RunOps(c,
 		func(hdr []string) string {
-			if len(hdr) != 2 {
+			if len(hdr) < 1 {
 				return "bad-op"
 			}
-			cmp = cmpOf(hdr[1])
-			if cmp == nil {
+			c, caps, zv, ok := parseHeapHdr(hdr[1:])
+			if !ok {
 				return "bad-op"
 			}
-			a := heapz.New[int](0, cmp)
-			b := heapz.New[int](0, cmp)
-			d.h[0], d.h[1] = &a, &b
+			cmp = c
+			if zv {
+				// zero values: `var h heapz.Heap[int]`; the first call on each is Init
+				d.h[0], d.h[1] = new(heapz.Heap[int]), new(heapz.Heap[int])
+			} else {
+				a := heapz.New[int](caps[0], cmp)
+				b := heapz.New[int](caps[1], cmp)
+				d.h[0], d.h[1] = &a, &b
+			}
 			return "ok | " + d.dump()
 		},
 		func(t []string) string {
@@ -119,6 +181,24 @@ func (d *hImpl) step(t []string, cmp func(a, b int) bool) string {
 		}
 		d.el[e].Value = v
 		return "ok"
+	}
+	switch {
+	case t[0] == "range" && len(t) == 3:
+		// range over the STORED Seq of that slot, leaving the loop after n >= 1 received elements
+		sl, ok1 := slotOf(t[1], len(d.seqs))
+		n, ok2 := atoi(t[2])
+		if !ok1 || !ok2 || n < 1 || strings.HasPrefix(t[2], "-") {
+			return "bad-op"
+		}
+		return fmt.Sprint(takeSeq(d.seqs[sl], n))
+	case t[0] == "rangeall" && len(t) == 2:
+		sl, ok := slotOf(t[1], len(d.seqs))
+		if !ok {
+			return "bad-op"
+		}
+		return fmt.Sprint(takeSeq(d.seqs[sl], 0))
+	case t[0] == "range" || t[0] == "rangeall":
+		return "bad-op"
 	}
 	k := heapIdx(t[1])
 	if k < 0 {
@@ -196,12 +276,25 @@ func (d *hImpl) step(t []string, cmp func(a, b int) bool) string {
 		}
 		h.Fix(e)
 		return "ok"
-	case t[0] == "popall" && len(t) == 2:
-		xs := []int{}
-		for x := range h.PopAll() {
-			xs = append(xs, x)
+	case t[0] == "seq" && len(t) == 2:
+		// q := h.PopAll(), kept for later `range` / `rangeall` lines
+		d.seqs = append(d.seqs, h.PopAll())
+		return "ok"
+	case (t[0] == "copyrm" || t[0] == "copyfix") && len(t) == 3:
+		// a struct copy is ANOTHER heap (another address): h's elements are foreign to it
+		e := elem(t[2])
+		if e == nil {
+			return "bad-op"
 		}
-		return fmt.Sprint(xs)
+		c := *h
+		if t[0] == "copyrm" {
+			c.Remove(e)
+		} else {
+			c.Fix(e)
+		}
+		return "ok"
+	case t[0] == "popall" && len(t) == 2:
+		return fmt.Sprint(takeSeq(h.PopAll(), 0))
 	case t[0] == "popalln" && len(t) == 3:
 		// the consumer leaves the range loop after n >= 1 received elements
 		n, ok := atoi(t[2])
@@ -276,13 +369,15 @@ func parseHeapDump(l string) (res string, lenA, lenB int, cells []cell, ok bool)
 
 func checkHeap(c core.Case, out []string) *core.Failure {
 	hdr := core.Toks(c.Lines[0])
-	if len(hdr) != 4 {
+	if len(hdr) < 4 {
 		return nil
 	}
-	cmp := cmpOf(hdr[3])
-	if cmp == nil {
+	cmp, _, zv, hok := parseHeapHdr(hdr[3:])
+	if !hok {
 		return nil
 	}
+	inited := [2]bool{!zv, !zv}              // zero-value heaps: nothing is promised before the first Init
+	var seqHeap []int                        // Seq slot -> the heap whose PopAll() made it
 	cmps := [2]func(a, b int) bool{cmp, cmp} // the comparator each heap was last initialised with
 	live := [2]map[int]bool{{}, {}}          // reference: which element ids each heap holds
 	vals := []int{}                          // reference: value of every element
@@ -323,6 +418,28 @@ func checkHeap(c core.Case, out []string) *core.Failure {
 		if out[i] == "bad-op" {
 			return nil
 		}
+		if i > 0 && len(t) >= 2 && (t[0] == "range" || t[0] == "rangeall") {
+			// ranging over a stored Seq: the Seq is `h.PopAll()` of the heap it was made from, and
+			// a fresh range of it pops from what that heap holds NOW (its current comparator)
+			sl, ok := slotOf(t[1], len(seqHeap))
+			if !ok {
+				return nil
+			}
+			if t[0] == "range" && len(t) == 3 {
+				t = []string{"popalln", "AB"[seqHeap[sl] : seqHeap[sl]+1], t[2]}
+			} else {
+				t = []string{"popall", "AB"[seqHeap[sl] : seqHeap[sl]+1]}
+			}
+		}
+		if i > 0 && zv && len(t) >= 2 {
+			if k := heapIdx(t[1]); k >= 0 && t[0] != "setv" {
+				if t[0] == "init" || t[0] == "initc" {
+					inited[k] = true
+				} else if !inited[k] {
+					return nil // a zero Heap used before Init: the caller's misuse
+				}
+			}
+		}
 		if out[i] == "panic" || out[i] == "dead" {
 			if len(t) == 3 && t[0] == "pushe" {
 				if e, _ := atoi(t[2]); live[0][e] || live[1][e] {
@@ -333,6 +450,10 @@ func checkHeap(c core.Case, out []string) *core.Failure {
 		}
 		res, lenA, lenB, cells, ok := parseHeapDump(out[i])
 		if !ok {
+			if n := strings.Count(out[i], ":?:?"); n > 0 {
+				// the harness found no NEW element for n of the values given to Init
+				return fail("heap-init-not-fresh", i, c, out, "Init must put a newly allocated element into the heap for every value: for %d of them the heap holds no element that was not handed out before (recycled handles / lost values)", n)
+			}
 			return fail("heap-format", i, c, out, "unparsable")
 		}
 		if i > 0 {
@@ -346,7 +467,7 @@ func checkHeap(c core.Case, out []string) *core.Failure {
 			}
 			if k >= 0 && !broken[k] && anyDirty(k) {
 				switch t[0] {
-				case "peek", "len":
+				case "peek", "len", "seq", "copyrm", "copyfix":
 				case "fix", "setfix":
 					if e := elemArg(); !dirty[e] || !live[k][e] {
 						broken[k] = true
@@ -425,6 +546,17 @@ func checkHeap(c core.Case, out []string) *core.Failure {
 				e, _ := atoi(t[1])
 				v, _ := atoi(t[2])
 				setValue(e, v)
+			case "seq":
+				// PopAll() only builds the Seq: nothing is popped before somebody ranges over it
+				if res != "ok" || tail(out[i]) != tail(out[i-1]) {
+					return fail("heap-seq-create", i, c, out, "calling PopAll() without ranging over the result must not change anything (before: %s)", tail(out[i-1]))
+				}
+				seqHeap = append(seqHeap, k)
+			case "copyrm", "copyfix":
+				// c := *h is another Heap object: whatever the handle belongs to, it is not c's
+				if res != "ok" || tail(out[i]) != tail(out[i-1]) {
+					return fail("heap-copy-foreign", i, c, out, "Remove/Fix called on a struct copy of the heap (another object: every handle is foreign to it) must not change anything (before: %s)", tail(out[i-1]))
+				}
 			case "pushe":
 				e := elemArg()
 				if live[0][e] || live[1][e] {
@@ -786,10 +918,25 @@ func (g *hSim) pick(r *core.Rand, k int) int {
 	return r.Intn(len(g.vals))
 }
 
+// pickCap: a capacity for New; mostly small ones, which the pushes of a case cross.
+func pickCap(r *core.Rand) int {
+	return heapCaps[r.Pick(14, 13, 13, 13, 10, 10, 10, 9, 8)]
+}
+
 func genHeap(r *core.Rand) core.Case {
 	cn := pickCmp(r)
 	g := &hSim{cmp: cmpOf(cn), focus: -1}
-	lines := []string{"@ C04 heap " + cn}
+	hdr := "@ C04 heap " + cn
+	// New(capA, ·) / New(capB, ·) / both heaps zero values (then Init comes first on each)
+	zv := false
+	switch r.Pick(30, 55, 15) {
+	case 1:
+		hdr += fmt.Sprintf(" %d %d", pickCap(r), pickCap(r))
+	case 2:
+		hdr += fmt.Sprintf(" %d %d zv", pickCap(r), pickCap(r))
+		zv = true
+	}
+	lines := []string{hdr}
 	names := []string{"A", "B"}
 	// key regime: the usual six keys / all keys equal / two keys / many keys
 	regime := r.Pick(62, 8, 10, 20)
@@ -816,6 +963,46 @@ func genHeap(r *core.Rand) core.Case {
 		return newKey()*1000 + e%1000
 	}
 	big := r.Chance(12)
+	cmpNow := [2]string{cn, cn} // the comparator each heap has
+	var seqs []int              // Seq slot -> heap
+	lastSlot := -1
+	var next func() // a follow-up the previous op asked for (use of a Seq after Init, re-push after initc)
+	doRange := func(sl int) {
+		k := seqs[sl]
+		lastSlot = sl
+		if r.Chance(10) {
+			lines = append(lines, fmt.Sprintf("rangeall %d", sl))
+			for len(g.arr[k]) > 0 {
+				g.pop(k, 'a')
+			}
+			return
+		}
+		n := pickStop(r, len(g.arr[k]))
+		lines = append(lines, fmt.Sprintf("range %d %d", sl, n))
+		for ; n > 0 && len(g.arr[k]) > 0; n-- {
+			g.pop(k, 'a')
+		}
+	}
+	slotsOf := func(k int) []int {
+		var sl []int
+		for i, h := range seqs {
+			if h == k {
+				sl = append(sl, i)
+			}
+		}
+		return sl
+	}
+	doPushe := func(k, e int) {
+		if r.Chance(30) {
+			// with a fresh value first (the element is in no heap: no Fix owed)
+			v := valFor(e)
+			lines = append(lines, fmt.Sprintf("setv %d %d", e, v))
+			g.vals[e] = v
+		}
+		lines = append(lines, fmt.Sprintf("pushe %s %d", names[k], e))
+		g.attach(k, e)
+		g.focus = e
+	}
 	doInit := func(k int, first bool) {
 		n := r.Range(0, 8)
 		if big && (first || r.Chance(30)) {
@@ -823,7 +1010,8 @@ func genHeap(r *core.Rand) core.Case {
 		}
 		l := "init " + names[k]
 		g.cmps[k] = nil
-		if (first && r.Chance(15)) || (!first && r.Chance(35)) {
+		newCmp := cn
+		if (first && r.Chance(15)) || (!first && r.Chance(45)) {
 			// Init with its own comparator (often another one than New got)
 			c := pickCmp(r)
 			if r.Chance(50) {
@@ -831,20 +1019,50 @@ func genHeap(r *core.Rand) core.Case {
 			}
 			l = "initc " + names[k] + " " + c
 			g.cmps[k] = cmpOf(c)
+			newCmp = c
 		}
 		vs := make([]int, n)
 		for i := range vs {
 			vs[i] = valFor(len(g.vals) + i)
 			l += " " + strconv.Itoa(vs[i])
 		}
+		discarded := append([]int{}, g.arr[k]...)
 		g.init(k, vs)
 		lines = append(lines, l)
+		changed := newCmp != cmpNow[k]
+		cmpNow[k] = newCmp
+		if first {
+			return
+		}
+		// follow-ups: a Seq made before this Init is ranged over now (it must enumerate the NEW
+		// content in the NEW order); a handle this Init discarded goes into the OTHER heap
+		sl := slotsOf(k)
+		switch {
+		case len(sl) > 0 && r.Chance(70):
+			s := sl[r.Intn(len(sl))]
+			next = func() { doRange(s) }
+		case len(discarded) > 0 && (changed && r.Chance(75) || r.Chance(25)):
+			e := discarded[r.Intn(len(discarded))]
+			next = func() {
+				if g.own[e] < 0 {
+					doPushe(1-k, e)
+				}
+			}
+		}
 	}
-	if r.Chance(60) || big {
+	if r.Chance(60) || big || zv {
 		doInit(0, true)
 	}
-	if r.Chance(40) {
+	if r.Chance(40) || zv {
 		doInit(1, !big || r.Chance(25))
+	}
+	if r.Chance(45) {
+		// Seq values obtained EARLY; they are used late, after the heaps have changed
+		for i := r.Range(1, 3); i > 0; i-- {
+			k := r.Pick(70, 30)
+			lines = append(lines, "seq "+names[k])
+			seqs = append(seqs, k)
+		}
 	}
 	ops := r.Range(1, 60)
 	target := r.Range(1, 14) // below this size pushes dominate, above it removals do
@@ -852,17 +1070,50 @@ func genHeap(r *core.Rand) core.Case {
 		ops = r.Range(20, 70)
 		target = r.Range(16, 40)
 	}
+	if len(seqs) > 0 {
+		ops = max(ops, r.Range(8, 30))
+	}
 	for len(lines) <= ops {
+		if next != nil {
+			f := next
+			next = nil
+			f()
+			continue
+		}
 		k := 0
 		if r.Chance(30) {
 			k = 1
+		}
+		if g.focus >= 0 && g.own[g.focus] >= 0 && r.Chance(60) {
+			// a handle that was just re-pushed: the follow-up goes to the heap that holds it now
+			k = g.own[g.focus]
 		}
 		H := names[k]
 		pushW := 16
 		if len(g.arr[k]) < target {
 			pushW = 44
 		}
-		switch r.Pick(pushW, 14, 3, 2, 20, 9, 5, 1, initWeight, 9, 9, 3) {
+		rangeW, initW := 0, initWeight
+		if len(seqs) > 0 {
+			rangeW, initW = 12, initWeight+3
+		}
+		switch r.Pick(pushW, 14, 3, 2, 20, 9, 5, 1, initW, 9, 9, 3, rangeW, 1, 4) {
+		case 12:
+			sl := r.Intn(len(seqs))
+			if lastSlot >= 0 && r.Chance(55) {
+				sl = lastSlot
+			}
+			doRange(sl)
+		case 13:
+			lines = append(lines, "seq "+H)
+			seqs = append(seqs, k)
+		case 14:
+			// Remove / Fix called on a struct copy `c := *h`: the handle (mostly live in h) is foreign to c
+			e := g.pick(r, k)
+			if e < 0 {
+				continue
+			}
+			lines = append(lines, fmt.Sprintf("%s %s %d", []string{"copyrm", "copyfix"}[r.Intn(2)], H, e))
 		case 11:
 			n := pickStop(r, len(g.arr[k]))
 			lines = append(lines, fmt.Sprintf("popalln %s %d", H, n))
@@ -919,16 +1170,7 @@ func genHeap(r *core.Rand) core.Case {
 			if len(d) == 0 {
 				continue
 			}
-			e := d[r.Intn(len(d))]
-			if r.Chance(30) {
-				// with a fresh value first (the element is in no heap: no Fix owed)
-				v := valFor(e)
-				lines = append(lines, fmt.Sprintf("setv %d %d", e, v))
-				g.vals[e] = v
-			}
-			lines = append(lines, fmt.Sprintf("pushe %s %d", H, e))
-			g.attach(k, e)
-			g.focus = e
+			doPushe(k, d[r.Intn(len(d))])
 		case 10:
 			// e.Value = v; h.Fix(e): live in h (mostly) or detached; an element of the OTHER heap
 			// only with its value unchanged (changing it there without Fix is the caller's breach)
@@ -993,8 +1235,10 @@ func stopLabel(k, n int) string {
 func classifyHeap(c core.Case, out []string) []string {
 	var ls []string
 	own := []int{}       // element -> heap holding it, -1 detached
-	how := []string{}    // how it was detached last
+	how := []string{}    // how it was detached last (init / initc = an Init with ANOTHER comparator than the heap had)
 	repushed := []bool{} // has been re-pushed by pushe and is live since
+	fromHeap := []int{}  // the heap it was detached from last
+	viaInitc := []bool{} // re-pushed after an Init with another comparator discarded it
 	var prev []cell      // state before the call
 	n := [2]int{}        // Len of both heaps before the call
 	maxLen := 0
@@ -1005,11 +1249,14 @@ func classifyHeap(c core.Case, out []string) []string {
 			own = append(own, -1)
 			how = append(how, "")
 			repushed = append(repushed, false)
+			fromHeap = append(fromHeap, -1)
+			viaInitc = append(viaInitc, false)
 		}
 	}
 	detach := func(e int, why string) {
 		if e >= 0 && e < len(own) {
-			own[e], how[e], repushed[e] = -1, why, false
+			fromHeap[e] = own[e]
+			own[e], how[e], repushed[e], viaInitc[e] = -1, why, false, false
 		}
 	}
 	move := func(before, after int) string {
@@ -1023,17 +1270,70 @@ func classifyHeap(c core.Case, out []string) []string {
 	}
 	hdr := core.Toks(c.Lines[0])
 	var cmp func(a, b int) bool
+	capNow := [2]int{}                 // capacity of the array as far as it is known (-1: grown by append)
+	capFrom := [2]string{"new", "new"} // what fixed that capacity
+	cmpName := [2]string{}             // the comparator each heap was last initialised with
 	if len(hdr) >= 4 {
 		cmp = cmpOf(hdr[3])
+		cmpName = [2]string{hdr[3], hdr[3]}
+		if _, caps, zv, ok := parseHeapHdr(hdr[3:]); ok {
+			capNow = caps
+			switch {
+			case zv:
+				ls = append(ls, "h:new:zero-value")
+			case len(hdr) >= 6:
+				for k := 0; k < 2; k++ {
+					if caps[k] > 0 {
+						ls = append(ls, "h:new:cap>0")
+					} else {
+						ls = append(ls, "h:new:cap=0")
+					}
+				}
+			default:
+				ls = append(ls, "h:new:no-cap-given")
+			}
+		}
+	}
+	// Seq slots: the heap PopAll() was called on, and what happened since
+	type seqInfo struct {
+		heap, made, ranged, partial int  // made: line of the `seq`; ranged: times ranged over; partial: of those, left with elements remaining
+		lastPartial                 bool // the previous range over it was left early
+		mutated, init, initc, other bool // since the Seq was made: push/pushe/rm/setfix/pop on its heap, Init / Init with another comparator of its heap, the OTHER heap modified
+	}
+	var seqs []*seqInfo
+	modified := func(k int) {
+		for _, q := range seqs {
+			if q.heap == k {
+				q.mutated = true
+			} else {
+				q.other = true
+			}
+		}
 	}
 	for i := 0; i < len(c.Lines) && i < len(out); i++ {
 		t := core.Toks(c.Lines[i])
 		if len(t) == 0 {
 			continue
 		}
+		opName := t[0]
+		var sq *seqInfo
+		if i > 0 && len(t) >= 2 && (t[0] == "range" || t[0] == "rangeall") && out[i] != "bad-op" {
+			// a range over a stored Seq = popalln / popall on the heap it was made from
+			sl, ok := slotOf(t[1], len(seqs))
+			if !ok {
+				continue
+			}
+			sq = seqs[sl]
+			H := "AB"[sq.heap : sq.heap+1]
+			if t[0] == "range" && len(t) == 3 {
+				t = []string{"popalln", H, t[2]}
+			} else {
+				t = []string{"popall", H}
+			}
+		}
 		if out[i] == "panic" || out[i] == "dead" || out[i] == "bad-op" {
 			if i > 0 {
-				ls = append(ls, "h:"+t[0]+":"+out[i])
+				ls = append(ls, "h:"+opName+":"+out[i])
 			}
 			continue
 		}
@@ -1045,7 +1345,7 @@ func classifyHeap(c core.Case, out []string) []string {
 			prev = cells
 			continue
 		}
-		lab := "h:" + t[0]
+		lab := "h:" + opName
 		k := -1
 		if len(t) >= 2 {
 			k = heapIdx(t[1])
@@ -1065,11 +1365,75 @@ func classifyHeap(c core.Case, out []string) []string {
 				}
 			}
 		}
+		if sq != nil {
+			// what this use of the stored Seq is preceded by
+			p := "h:range"
+			if sq.ranged > 0 {
+				ls = append(ls, p+":again")
+			}
+			if sq.lastPartial {
+				ls = append(ls, p+":after-break")
+			}
+			if sq.mutated {
+				ls = append(ls, p+":after-mutation")
+			}
+			if sq.init {
+				ls = append(ls, p+":after-init")
+			}
+			if sq.initc {
+				ls = append(ls, p+":after-initc")
+			}
+			if sq.other {
+				ls = append(ls, p+":other-heap-modified")
+			}
+			if i-sq.made >= 6 {
+				ls = append(ls, p+":held>=6-ops")
+			}
+			if n[sq.heap] >= 64 {
+				ls = append(ls, p+":n>=64")
+			}
+			if n[sq.heap] == 0 {
+				ls = append(ls, p+":empty")
+			}
+			sq.ranged++
+			sq.lastPartial = [2]int{lenA, lenB}[sq.heap] > 0
+			if sq.lastPartial {
+				sq.partial++
+				if sq.partial >= 2 {
+					ls = append(ls, p+":partial-again")
+				}
+			}
+		}
 		switch t[0] {
+		case "seq":
+			if k < 0 {
+				break
+			}
+			seqs = append(seqs, &seqInfo{heap: k, made: i})
+			ls = append(ls, "h:seq:n="+sizeBucket(n[k]))
+			if len(seqs) >= 2 {
+				ls = append(ls, "h:seq:several-held")
+			}
+		case "copyrm", "copyfix":
+			if !handleOp {
+				break
+			}
+			switch {
+			case own[e] == k:
+				ls = append(ls, lab+":live-in-h")
+			case own[e] == 1-k:
+				ls = append(ls, lab+":other-heap")
+			default:
+				ls = append(ls, lab+":stale")
+			}
+			if tail(out[i]) == tail(out[i-1]) {
+				lab += ":unchanged"
+			}
 		case "init", "initc":
 			if k < 0 {
 				break
 			}
+			other := false
 			if t[0] == "initc" && len(t) >= 3 {
 				sawInitc = true
 				if len(hdr) >= 4 && t[2] == hdr[3] {
@@ -1077,16 +1441,41 @@ func classifyHeap(c core.Case, out []string) []string {
 				} else {
 					ls = append(ls, "h:initc:other-cmp")
 				}
+				other = t[2] != cmpName[k]
+				cmpName[k] = t[2]
+			} else if len(hdr) >= 4 {
+				other = hdr[3] != cmpName[k]
+				cmpName[k] = hdr[3]
+			}
+			if other {
+				ls = append(ls, "h:init:cmp-changes")
 			}
 			if n[k] > 0 {
 				ls = append(ls, "h:init:nonempty")
+				if other {
+					ls = append(ls, "h:init:nonempty:cmp-changes")
+				}
 			}
 			if n[1-k] > 0 {
 				ls = append(ls, "h:init:other-heap-live")
 			}
+			why := "init"
+			if other {
+				why = "initc"
+			}
 			for o := range own {
 				if own[o] == k {
-					detach(o, "init")
+					detach(o, why)
+				}
+			}
+			for _, q := range seqs {
+				if q.heap == k {
+					q.init = true
+					if other {
+						q.initc = true
+					}
+				} else {
+					q.other = true
 				}
 			}
 			grow(len(cells))
@@ -1094,6 +1483,7 @@ func classifyHeap(c core.Case, out []string) []string {
 				own[o] = k
 				seenVals = append(seenVals, cells[o].val)
 			}
+			capNow[k], capFrom[k] = len(cells)-len(prev), "init"
 			ls = append(ls, "h:init:n="+sizeBucket(len(cells)-len(prev)))
 		case "push":
 			grow(len(cells))
@@ -1102,6 +1492,15 @@ func classifyHeap(c core.Case, out []string) []string {
 				own[o] = k
 				seenVals = append(seenVals, cells[o].val)
 				ls = append(ls, "h:push"+move(n[k], cells[o].idx))
+				if n[k] == capNow[k] {
+					// append reallocates: every handle now lives in a new array
+					ls = append(ls, "h:push:at-cap:"+capFrom[k])
+					if capFrom[k] == "new" && capNow[k] > 0 {
+						ls = append(ls, "h:push:crosses-New-cap>0")
+					}
+					capNow[k] = -1
+				}
+				modified(k)
 			}
 		case "pushe":
 			if !handleOp {
@@ -1114,9 +1513,18 @@ func classifyHeap(c core.Case, out []string) []string {
 				ls = append(ls, "h:pushe:never-attached")
 			default:
 				ls = append(ls, "h:pushe:after-"+how[e])
+				if fromHeap[e] >= 0 && fromHeap[e] != k {
+					ls = append(ls, "h:pushe:after-"+how[e]+":other-heap")
+				}
 			}
+			if n[k] == capNow[k] {
+				ls = append(ls, "h:pushe:at-cap:"+capFrom[k])
+				capNow[k] = -1
+			}
+			viaInitc[e] = own[e] < 0 && how[e] == "initc"
 			own[e], repushed[e] = k, true
 			ls = append(ls, "h:pushe"+move(n[k], cells[e].idx))
+			modified(k)
 		case "pop":
 			if k < 0 {
 				break
@@ -1130,8 +1538,12 @@ func classifyHeap(c core.Case, out []string) []string {
 			if p, err := strconv.Atoi(res); err == nil && p >= 0 && p < len(own) {
 				if repushed[p] {
 					ls = append(ls, "h:pop:repushed")
+					if viaInitc[p] {
+						ls = append(ls, "h:pop:repushed:after-initc")
+					}
 				}
 				detach(p, "pop")
+				modified(k)
 			}
 		case "peek":
 			if k >= 0 && n[k] == 0 {
@@ -1141,29 +1553,47 @@ func classifyHeap(c core.Case, out []string) []string {
 			if k < 0 {
 				break
 			}
-			ls = append(ls, "h:popall:n="+sizeBucket(n[k]))
+			ls = append(ls, "h:"+opName+":n="+sizeBucket(n[k]))
 			for o := range own {
 				if own[o] == k {
 					detach(o, "popall")
+				}
+			}
+			if sq == nil {
+				modified(k)
+			} else {
+				for _, q := range seqs {
+					if q != sq {
+						if q.heap == k {
+							q.mutated = true
+						} else {
+							q.other = true
+						}
+					}
 				}
 			}
 		case "popalln":
 			if k < 0 || len(t) != 3 {
 				break
 			}
-			ls = append(ls, "h:popalln:n="+sizeBucket(n[k]))
+			ls = append(ls, "h:"+opName+":n="+sizeBucket(n[k]))
 			if stop, ok := atoi(t[2]); ok {
-				ls = append(ls, "h:popalln:"+stopLabel(stop, n[k]))
+				ls = append(ls, "h:"+opName+":"+stopLabel(stop, n[k]))
 			}
 			if [2]int{lenA, lenB}[k] > 0 {
-				ls = append(ls, "h:popalln:partial")
+				ls = append(ls, "h:"+opName+":partial")
 				if n[k] >= 64 {
-					ls = append(ls, "h:popalln:partial:n>=64")
+					ls = append(ls, "h:"+opName+":partial:n>=64")
 				}
 			}
 			for o := range own {
 				if own[o] == k && o < len(cells) && cells[o].idx == -1 {
 					detach(o, "popall")
+				}
+			}
+			for _, q := range seqs {
+				if q != sq && q.heap != k {
+					q.other = true
 				}
 			}
 		case "rm", "fix", "setfix":
@@ -1192,6 +1622,9 @@ func classifyHeap(c core.Case, out []string) []string {
 			case t[0] == "rm":
 				if repushed[e] {
 					ls = append(ls, "h:rm:repushed")
+					if viaInitc[e] {
+						ls = append(ls, "h:rm:repushed:after-initc")
+					}
 				}
 				last := n[k] - 1
 				if prev[e].idx == last {
@@ -1207,11 +1640,18 @@ func classifyHeap(c core.Case, out []string) []string {
 					ls = append(ls, "h:rm:single")
 				}
 				detach(e, "rm")
+				modified(k)
 			default:
 				if repushed[e] {
 					ls = append(ls, d+":repushed")
+					if viaInitc[e] {
+						ls = append(ls, d+":repushed:after-initc")
+					}
 				}
 				ls = append(ls, d+move(prev[e].idx, cells[e].idx))
+				if t[0] == "setfix" {
+					modified(k)
+				}
 			}
 		case "setv":
 			if v, ok := atoi(t[len(t)-1]); ok {
